@@ -46,7 +46,7 @@ def _interleave(lists: List[List[Any]]) -> List[Any]:
     return out
 
 
-def sibling_cfg(cfg: Dict, seed: int, max_hosts: int = 3) -> Tuple[Dict, Dict[str, Any]]:
+def sibling_cfg(cfg: Dict, seed: int, max_hosts: int = 3, force_masking: bool = False) -> Tuple[Dict, Dict[str, Any]]:
     """Returns (new cfg, info). info: hosts chosen, first index of the added entries, number added."""
     from harness.rigs.request import _vocab
     rng = Rng(seed).fork("siblings")
@@ -105,11 +105,30 @@ def sibling_cfg(cfg: Dict, seed: int, max_hosts: int = 3) -> Tuple[Dict, Dict[st
         am = (a.get("action_space") or {}).get("action_map")
         if a.get("type") != "proxy-agent" or not isinstance(am, dict):
             continue
+        if force_masking:   # a scenario shipped without action masking: the flag only switches the mask computation on
+            a["agent_settings"] = dict(a.get("agent_settings") or {}, action_masking=True)
         base = len(am)
         first = base if first is None else first
         for k, e in enumerate(added):
             am[base + k] = copy.deepcopy(e)
     return cfg, {"hosts": hosts, "netnodes": netnodes, "first": first, "added": len(added)}
+
+
+def other_scenarios() -> List[str]:
+    """shipped single-file scenarios with exactly one proxy agent that are NOT in the check's list of masking scenarios: the
+    family runs on them too, with action masking switched on"""
+    out = []
+    for n, p in scen.shipped().items():
+        try:
+            cfg = scen.load_cfg(p)
+            ags = [a for a in cfg.get("agents", []) if a.get("type") == "proxy-agent"]
+            nodes = ((cfg.get("simulation") or {}).get("network") or {}).get("nodes") or []
+            if len(ags) == 1 and isinstance((ags[0].get("action_space") or {}).get("action_map"), dict) \
+                    and any(x.get("type") in ("computer", "server") for x in nodes):
+                out.append(n)
+        except Exception:
+            continue
+    return sorted(out)
 
 
 def diverging(amap: Dict[int, Tuple[str, Dict]], first: int) -> List[int]:
